@@ -165,8 +165,13 @@ Definition hook_clause_b (kind : N) (pushed : list (N * N)) (emitted : list (lis
   match kind with
   | 0 => lNN_eqb (concat emitted ++ final) pushed
   | 1 => ms_eqb (concat emitted ++ final) pushed
-  | _ => sortedNle (map snd (concat emitted))
+  | 2 => sortedNle (map snd (concat emitted))
          && forallb (fun e => Nat.eqb (length e) 1) emitted
+  | _ => (* keyed snapshot hook: per key never back, at most one release per key per round *)
+         let all := concat emitted in
+         forallb (fun k => sortedNle (map snd (filter (fun kv => N.eqb (fst kv) k) all))) (map fst all)
+         && forallb (fun e => forallb (fun k =>
+              Nat.leb (length (filter (fun kv => N.eqb (fst kv) k) e)) 1) (map fst e)) emitted
   end.
 
 Definition c31_sim_verdict (rounds : list sround) (continuity : bool)
